@@ -336,3 +336,99 @@ package mcp
 //@   ensures @limit (n == 0 ==> s.maxBytes == defaultMaxBytes) && (n > 0 ==> s.maxBytes == n)
 //@   ensures @oldest-first forall se string, st string :: registered(s, se, st) ==> evictedHdr(s.store[se][st])
 //@   ensures @oldest-first-slots forall se string, st string, j int :: registered(s, se, st) ==> keptSlot(s.store[se][st], j)
+
+// ---------------------------------------------------------------------------------------------
+// C17: feature sets and keyset pagination
+// ---------------------------------------------------------------------------------------------
+// The unique-ID function supplied at construction is assumed pure (uidOf).
+//@ fun uidOf(f $T) string
+// Representation invariant: the lazily built index is either absent or the strictly ascending list of exactly the
+// registered IDs.
+//@ pred fsRep(s $S) := s != nil && s.features != nil && (s.sortedKeys == nil || (ascending(s.sortedKeys)
+//@   && (forall k string :: {inDom(s.features, k)} k in s.features ==> has(s.sortedKeys, k))
+//@   && (forall i int :: {absElem(s.sortedKeys, i)} off(s.sortedKeys) <= i && i < off(s.sortedKeys) + len(s.sortedKeys) ==> absElem(s.sortedKeys, i) in s.features)))
+
+//@ func (*featureSet[T]).add [C17]
+//@   callee s.uniqueID: pure
+//@   callee s.uniqueID: ensures result == uidOf($0)
+//@   requires s != nil && s.features != nil
+//@   modifies mapOf(s.features), s.sortedKeys
+//@   ensures @index-invalidated s.sortedKeys == nil && fsRep(s)
+//@   ensures @added forall i int :: {absElem(fs, i)} off(fs) <= i && i < off(fs) + len(fs) ==> uidOf(absElem(fs, i)) in s.features
+//@   ensures @kept forall k string :: {inDom(s.features, k)} old(k in s.features) ==> k in s.features
+//@   ensures @only-added forall k string :: {inDom(s.features, k)} (k in s.features) && !old(k in s.features)
+//@        ==> (exists i int :: {absElem(fs, i)} off(fs) <= i && i < off(fs) + len(fs) && uidOf(absElem(fs, i)) == k)
+//@   loop 1: invariant @added forall i int :: {absElem(fs, i)} off(fs) <= i && i < off(fs) + $idx ==> uidOf(absElem(fs, i)) in s.features
+//@   loop 1: invariant @kept forall k string :: {inDom(s.features, k)} old(k in s.features) ==> k in s.features
+//@   loop 1: invariant @only-added forall k string :: {inDom(s.features, k)} (k in s.features) && !old(k in s.features)
+//@        ==> (exists i int :: {absElem(fs, i)} off(fs) <= i && i < off(fs) + $idx && uidOf(absElem(fs, i)) == k)
+//@   loop 1: invariant @map-same s.features == old(s.features) && s.features != nil
+
+//@ func (*featureSet[T]).remove [C17]
+//@   requires fsRep(s)
+//@   modifies mapOf(s.features), s.sortedKeys
+//@   ensures @rep fsRep(s)
+//@   ensures @subset forall k string :: {inDom(s.features, k)} k in s.features ==> old(k in s.features) && s.features[k] == old(s.features[k])
+//@   ensures @requested-gone forall i int :: {absElem(uids, i)} off(uids) <= i && i < off(uids) + len(uids) ==> !(absElem(uids, i) in s.features)
+//@   ensures @only-requested-gone forall k string :: {inDom(s.features, k)} old(k in s.features) && !(k in s.features) ==> has(uids, k)
+//@   ensures @reports-change result <==> !(forall k string :: {inDom(s.features, k)} old(k in s.features) ==> k in s.features)
+//@   ensures @index result ==> s.sortedKeys == nil
+//@   loop 1: invariant @subset forall k string :: {inDom(s.features, k)} k in s.features ==> old(k in s.features) && s.features[k] == old(s.features[k])
+//@   loop 1: invariant @processed-gone forall i int :: {absElem(uids, i)} off(uids) <= i && i < off(uids) + $idx ==> !(absElem(uids, i) in s.features)
+//@   loop 1: invariant @only-requested-gone forall k string :: {inDom(s.features, k)} old(k in s.features) && !(k in s.features) ==> has(uids, k)
+//@   loop 1: invariant @changed local(changed) <==> !(forall k string :: {inDom(s.features, k)} old(k in s.features) ==> k in s.features)
+//@   loop 1: invariant @same s.sortedKeys == old(s.sortedKeys) && s.features == old(s.features)
+
+//@ func (*featureSet[T]).sortKeys [C17]
+//@   requires fsRep(s)
+//@   modifies s.sortedKeys
+//@   ensures @rep fsRep(s) && (len(s.features) > 0 ==> s.sortedKeys != nil)
+//@   ensures @stable old(s.sortedKeys != nil) ==> s.sortedKeys == old(s.sortedKeys)
+
+// above(uid): the iterator starts at the first registered ID strictly greater than uid.
+//@ func (*featureSet[T]).above [C17]
+//@   requires fsRep(s)
+//@   modifies s.sortedKeys
+//@   ensures @rep fsRep(s) && (len(s.features) > 0 ==> s.sortedKeys != nil)
+//@   ensures @bounds 0 <= local(index) && local(index) <= len(s.sortedKeys)
+//@   ensures @strictly-after forall j int :: {absElem(s.sortedKeys, j)} off(s.sortedKeys) <= j && j < off(s.sortedKeys) + len(s.sortedKeys)
+//@        ==> ((j - off(s.sortedKeys) < local(index)) <==> (before(absElem(s.sortedKeys, j), uid) || absElem(s.sortedKeys, j) == uid))
+
+// yieldFrom: the features at positions index, index+1, ... of the index, in order, until the consumer stops.
+//@ func (*featureSet[T]).yieldFrom [C17]
+//@   track yield
+//@   modifies *
+//@   requires s != nil && index >= 0
+//@   assert at call yield: @in-order index + calls(yield) < len(s.sortedKeys) && $0 == s.features[s.sortedKeys[index + calls(yield)]]
+//@   ensures @all-or-stopped index + calls(yield) >= len(s.sortedKeys) || (calls(yield) >= 1 && !lastResult(yield, 0))
+//@   loop 1: invariant local(i) == index + calls(yield) && (calls(yield) >= 1 ==> lastResult(yield, 0))
+
+// paginateList (thin contract): an undecodable cursor is answered with invalid-params and nothing else happens;
+// the page is produced by iterating all() for an empty cursor and above(lastUID) otherwise. (The body of the
+// range-over-func loop is not under contract: page contents are argued from above/yieldFrom in DESIGN.md.)
+//@ func paginateList [C17]
+//@   track decodeCursor as dec
+//@   track all as startAll
+//@   track above as startAbove
+//@   track setFunc
+//@   modifies *
+//@   requires fsRep(fs)
+//@   ensures @bad-cursor-rejected calls(dec) == 1 && callResult(dec, 1, 1) != nil ==> result.1 == jsonrpc2.ErrInvalidParams && calls(setFunc) == 0 && calls(startAbove) == 0 && calls(startAll) == 0
+//@   ensures @resumes-after-cursor calls(dec) == 1 && callResult(dec, 1, 1) == nil ==> calls(startAbove) == 1 && calls(startAll) == 0 && callArg(startAbove, 1, 0) == fs
+//@        && callArg(startAbove, 1, 1) == at(afterDecode, callResult(dec, 1, 0).LastUID)
+//@   ensures @first-page calls(dec) == 0 ==> calls(startAll) == 1 && calls(startAbove) == 0 && callArg(startAll, 1, 0) == fs
+//@   ensures @decode-at-most-once calls(dec) <= 1
+//@   snapshot afterDecode after call decodeCursor
+
+// The cursor codec decodes into a fresh local token (gob/base64 are library code): nothing that existed before the
+// call is written. Assumed, not verified.
+//@ func decodeCursor
+//@   trusted
+//@   ensures result.1 == nil ==> result.0 != nil
+//@   ensures result.1 != nil ==> result.0 == nil
+//@ func encodeCursor
+//@   trusted
+
+// cursorPtr / nextCursorPtr are field-address accessors on every list params / result type.
+//@ func (listParams).cursorPtr
+//@   abstract
